@@ -1941,10 +1941,14 @@ pub fn generate(seed: u64, g: &GenCfg) -> Trace {
             }
             7 => Op::Reopen { flush: rng.chance(2, 3) },
             8 => Op::Flush,
-            _ => {
-                let n = rng.usize_below(20);
-                Op::SetMeta { bytes: rng.bytes(n) }
-            }
+            _ => match rng.weighted(&[3, 2, 5]) {
+                0 => Op::SetMeta { bytes: Vec::new() },
+                1 => Op::SetMeta { bytes: b"block:1234".to_vec() },
+                _ => {
+                    let n = 1 + rng.usize_below(20);
+                    Op::SetMeta { bytes: rng.bytes(n) }
+                }
+            },
         };
         step_model(&mut m, &op);
         let mut st = Step::plain(op);
